@@ -7,6 +7,7 @@ git apply "$PATCH" || { echo "seedtest: patch does not apply"; exit 2; }
 trap 'cd /repo && git checkout -q -- . && git clean -fdq' EXIT
 BIN=$(mktemp -d /tmp/seedtest.XXXXXX)
 /verif/build.sh $BIN/nutsim plain || { echo "seedtest: build failed"; rm -rf $BIN; exit 2; }
+case " $* " in *" C14 "*|*" C17 "*) /verif/build.sh $BIN/nutsim.race race || { echo "seedtest: race build failed"; rm -rf $BIN; exit 2; }; export NUTSIM_RACE_BIN=$BIN/nutsim.race;; esac
 for id in "$@"; do
   out=$($BIN/nutsim check -prop $id -tier quick -secs $SECS 2>&1)
   rc=$?
